@@ -39,6 +39,7 @@ type stats struct {
 	MapRanges    int            `json:"map_ranges"`
 	NetSeams     int            `json:"net_seams"`
 	AllocGuards  int            `json:"alloc_guards"`
+	Pools        int            `json:"sync_pool_calls"`
 	Skipped      []string       `json:"skipped"`
 	PerPackage   map[string]int `json:"sites_per_package"`
 	Files        int            `json:"files"`
@@ -686,6 +687,40 @@ func guardAllocs(f *ast.File) int {
 	return n
 }
 
+// rewritePools turns p.Get() / p.Put(x) on a sync.Pool into simrt.PoolGet(&p) / simrt.PoolPut(&p, x).
+func rewritePools(f *ast.File) int {
+	n := 0
+	ast.Inspect(f, func(nd ast.Node) bool {
+		c, ok := nd.(*ast.CallExpr)
+		if !ok {
+			return true
+		}
+		sel, ok := c.Fun.(*ast.SelectorExpr)
+		if !ok || (sel.Sel.Name != "Get" && sel.Sel.Name != "Put") {
+			return true
+		}
+		t := info.TypeOf(sel.X)
+		if t == nil || !isNamed(t, "sync", "Pool") {
+			return true
+		}
+		var recv ast.Expr = sel.X
+		if _, isPtr := t.(*types.Pointer); !isPtr {
+			recv = &ast.UnaryExpr{Op: token.AND, X: sel.X}
+		}
+		if sel.Sel.Name == "Get" && len(c.Args) == 0 {
+			c.Fun = &ast.SelectorExpr{X: ast.NewIdent("simrt"), Sel: ast.NewIdent("PoolGet")}
+			c.Args = []ast.Expr{recv}
+			n++
+		} else if sel.Sel.Name == "Put" && len(c.Args) == 1 {
+			c.Fun = &ast.SelectorExpr{X: ast.NewIdent("simrt"), Sel: ast.NewIdent("PoolPut")}
+			c.Args = []ast.Expr{recv, c.Args[0]}
+			n++
+		}
+		return true
+	})
+	return n
+}
+
 func rewritePackage(l *loaded) error {
 	info = l.info
 	files, paths := l.files, l.paths
@@ -696,6 +731,9 @@ func rewritePackage(l *loaded) error {
 		beforeNet := st.NetSeams
 		guards := guardAllocs(f)
 		st.AllocGuards += guards
+		pools := rewritePools(f)
+		st.Pools += pools
+		guards += pools
 		for _, d := range f.Decls {
 			switch x := d.(type) {
 			case *ast.FuncDecl:
